@@ -317,6 +317,26 @@ def _hoist(c, depth=0):
     return tuple(kids)
 
 
+def _has_sequence_operand(e):
+    """does a chain of + contain an operand that is visibly a string, list or tuple (then + is concatenation)"""
+    def seqlike(x):
+        if isinstance(x, ast.Constant) and isinstance(x.value, (str, bytes)):
+            return True
+        if isinstance(x, (ast.JoinedStr, ast.List, ast.Tuple, ast.ListComp)):
+            return True
+        if isinstance(x, ast.Call):
+            fn = ast.unparse(x.func)
+            if fn in ("str", "repr", "list", "tuple", "chr", "format") or fn.endswith((".join", ".format", ".strip", ".lower", ".upper", ".ljust", ".rjust", ".replace")):
+                return True
+        return False
+
+    def walk(x):
+        if isinstance(x, ast.BinOp) and isinstance(x.op, ast.Add):
+            return walk(x.left) or walk(x.right)
+        return seqlike(x)
+    return walk(e)
+
+
 def _seqfix(c):
     if not isinstance(c, tuple):
         return c
@@ -350,6 +370,17 @@ def _canon(e):
             return c[1] if isinstance(c, tuple) and c[0] == "not" else ("not", c)
         return ("~", _canon(e.operand))
     if isinstance(e, ast.BinOp):
+        if isinstance(e.op, ast.Add) and _has_sequence_operand(e):
+            # concatenation of strings / lists / tuples is ordered
+            parts = []
+
+            def flats(x):
+                if isinstance(x, ast.BinOp) and isinstance(x.op, ast.Add):
+                    flats(x.left); flats(x.right)
+                else:
+                    parts.append(_canon(x))
+            flats(e)
+            return ("concat",) + tuple(parts)
         if isinstance(e.op, (ast.Add, ast.Sub)):
             terms = []
 
